@@ -1280,7 +1280,7 @@ def differential(ctx, kf, budget_pairs, maxdepth, rnd, with_coq, exhaustive=Fals
                 yield "nested", g3.top(depth)
             else:
                 yield "gen", (gw if c < 0.35 else g1).top(depth)
-        if not outside_first:
+        if outside_first is False:
             for u, c in itertools.product(OUTSIDE_NODES, OUTSIDE_CONTEXTS):
                 yield "outside", c.replace("{U}", u)
 
@@ -1359,9 +1359,13 @@ def search(ctx, reason):
     kf = core.known_for("C07")
     rnd = random.Random(ctx.seed)
     try:
-        chk, _, _, _ = differential(ctx, kf, 6000 if ctx.tier == "quick" else 40000, 3, rnd, with_coq=False,
-                                    exhaustive=(ctx.tier != "quick"), time_limit=60 if ctx.tier == "quick" else 600,
-                                    outside_first=False)
+        # the fixed streams (outside-the-language constructs, typed matchers on nested records) are short: they are tried
+        # when the generated stream found nothing, so that a disagreement on an ordinary expression is preferred as witness
+        chk, _, _, _ = differential(ctx, kf, 5000 if ctx.tier == "quick" else 40000, 3, rnd, with_coq=False,
+                                    exhaustive=(ctx.tier != "quick"), time_limit=45 if ctx.tier == "quick" else 600,
+                                    outside_first=None)
+        if not ctx.violations:
+            chk, _, _, _ = differential(ctx, kf, 0, 3, rnd, with_coq=False, time_limit=120, outside_first=True)
     except Exception as e:  # noqa
         ctx.notes.append("search failed: %r" % e)
         return False
